@@ -655,6 +655,9 @@ func (x *Exec) callRepo(fu *FuncUnit, recv *Value, args []Value, e *ast.CallExpr
 		return x.inlineCall(fu, recv, args, e, st)
 	}
 	x.calleeAbort(fu, uc, st)
+	if uc != nil && len(x.uc.Establishes) > 0 && x.inlineDepth == 0 {
+		x.establishCallPre(fu, uc, recv, args, e, st)
+	}
 	return x.callOpaqueRepo(fu, recv, args, e, st)
 }
 
@@ -985,6 +988,9 @@ func (x *Exec) callWithContract(fu *FuncUnit, uc *UnitContract, recv *Value, arg
 			continue
 		}
 		x.assert(st, g, "call-pre", fmt.Sprintf("%s/call-pre:%s.%s@%d", x.uc.ID(), fu.Name, r.Name, ord), r.Tags, e.Pos(), "precondition of "+fu.Name+": "+r.Text)
+		if x.dry == 0 && x.inlineDepth == 0 {
+			x.noteEstablishedAt(uc.ID(), r.Name, e.Pos())
+		}
 	}
 	oldSt := st.clone()
 	sp.old = oldSt
